@@ -671,13 +671,13 @@ def run(ctx):
     nlay = sum(len(v) for v in enum["layouts"].values())
     ctx.extra["cases_enumerated_by_tlc"] = {"operations_on_sources": len(enum["ops"]), "layout_dependent": len(enum["lops"]),
                                             "layouts": nlay, "aligned": len(enum["aligned"])}
-    items = make_items(ctx, tables, enum, per_pair=ctx.pick(2, 16), n_lops=ctx.pick(350, 6000), per_apair=ctx.pick(6, 80))
+    items = make_items(ctx, tables, enum, per_pair=ctx.pick(2, 16), n_lops=ctx.pick(250, 6000), per_apair=ctx.pick(5, 80))
     pool = Pool()
     _, recs, skips, guards = check_items(ctx, items, "", pool, decide=False)
     if guards:
         raise MachineryError("the TLA+ reference disagrees with pandas on %d cases, e.g. %s: %s"
                              % (len(guards), json.dumps(guards[0][0]["op"]), guards[0][1][:600]))
-    progs = [gen_program(ctx.rng, i) for i in range(ctx.pick(220, 3000))]
+    progs = [gen_program(ctx.rng, i) for i in range(ctx.pick(180, 3000))]
     nsteps = 0
     for prog_recs in pmap(run_program, progs, chunk=8):
         for rec, item in prog_recs:
@@ -708,6 +708,8 @@ def run(ctx):
 # ----------------------------------------------------------------------------- replay
 def replay(ctx, obj):
     dd()
+    import dask
+    dask.config.set({"temporary-directory": ctx.scratch})
     quiet()
     c = obj["case"]
     item = c["item"]
@@ -750,6 +752,8 @@ def selftest(ctx):
     from ..divisions import mutate, patched_attr as patched
     dd()
     quiet()
+    import dask
+    dask.config.set({"temporary-directory": ctx.scratch})       # disk-based shuffles must not litter /tmp
     import dask.dataframe.dask_expr._expr as ex
     from dask.utils import M
     tables, nu, pairs = sources(ctx)
